@@ -355,7 +355,21 @@ def eligibleKeys (c : Cfg α) (items : List (Str × α)) : List Str :=
   (pairs ((eligible c items).map Prod.fst)).flatMap
     (fun p => [(edgeKey p.1 p.2).key, (edgeKey p.2 p.1).key])
 
+/-- keys of all unordered pairs of the *used* ids: the top-`k` items by `(-score, id)` among those
+with score ≥ θ — whatever order the items are listed in -/
+def usedKeys (c : Cfg α) (items : List (Str × α)) : List Str :=
+  (pairs ((usedItems c items).map Prod.fst)).flatMap
+    (fun p => [(edgeKey p.1 p.2).key, (edgeKey p.2 p.1).key])
+
 end
+
+/-- the hand-off clause of an observation: every record that is new or differs from before sits
+under the key of a pair of ids taken from the top-`k` items by score among ALL listed items
+(so a caller that truncates the listing before handing it over is caught). -/
+def obsTopB {α : Type} [NumGel α] (same : Edge α → Edge α → Bool) (c : Cfg α) (items : List (Str × α))
+    (pre post : List (Edge α)) : Bool :=
+  (post.filter (fun e => !(match findEdge e.key pre with | some e0 => same e0 e | none => false))).all
+    (fun e => (usedKeys c items).contains e.key)
 
 /-- one observation, as a relation between before / after / metrics:
 `k_used ≤ top_k`, `k_used ≤ #eligible`, `pairs_updated ≤ min(pair_cap, C(k_used,2))`, every old key
